@@ -270,7 +270,7 @@ func (g *unigen) newDoc(retrieval, id string, isRoot bool) *udoc {
 		for k := g.r.IntN(3); k > 0; k-- {
 			parent := Pick(g.r, d.all)
 			idSp := Pick(g.r, []string{"e%d.json", "sub/e%d.json", "http://emb/e%d.json", "./e%d.json", "../e%d.json"})
-			idSp = fmt.Sprintf(idSp, len(d.all))
+			idSp = fmt.Sprintf(idSp, g.nN) // globally unique: two documents claiming one embedded URI is undefined behaviour
 			e := g.newContainer(d, resolveRef(parent.uri, idSp), idSp)
 			key := fmt.Sprintf("e%d", len(d.all))
 			if g.r.IntN(4) == 0 {
@@ -522,7 +522,46 @@ func (g *unigen) spell(site *ures, tg utarget) (string, string) {
 			}
 		}
 	}
+	if uform == "abs" || uform == "retrieval-alias" {
+		if d := dotty(r, uri); d != uri && r.IntN(4) == 0 {
+			uri = d
+			uform += "-dotsegments"
+		}
+	}
 	return uri + hash, uform + ":" + form
+}
+
+// dotty inserts dot segments into the path of an absolute hierarchical URI without changing what it denotes
+// (RFC 3986 5.2.4 removes them, also from absolute references).
+func dotty(r *rand.Rand, uri string) string {
+	u, err := url.Parse(uri)
+	if err != nil || u.Opaque != "" || u.Host == "" || !strings.HasPrefix(u.Path, "/") {
+		return uri
+	}
+	i := strings.LastIndexByte(u.Path, '/')
+	dir, file := u.Path[:i], u.Path[i+1:]
+	switch r.IntN(4) {
+	case 0:
+		u.Path = dir + "/./" + file
+	case 1:
+		u.Path = dir + "/zz/../" + file
+	case 2:
+		u.Path = "/./" + strings.TrimPrefix(dir, "/") + "/" + file
+		if dir == "" {
+			u.Path = "/./" + file
+		}
+	default:
+		u.Path = dir + "/a/b/../../" + file
+	}
+	out := u.Scheme + "://" + u.Host + u.Path
+	if resolveRef("", out) == "" {
+		return uri
+	}
+	// self-check with net/url: must denote the same URI
+	if b, err := url.Parse(out); err != nil || b.ResolveReference(&url.URL{}).String() != uri {
+		return uri
+	}
+	return out
 }
 
 func (g *unigen) addDangling() {
